@@ -35,6 +35,11 @@ def cases(seed, tier, broken=()):
             for rel in ("feature_perm", "sample_perm"):
                 out.append({"cls": cls, "rel": rel, "mseed": int(rng.integers(0, 2**31)), "k": 3, "standardize": False, "use_coslat": False,
                             "sname": "S", "fname": "F", "use_pca": True})
+    # latitude weighting and list items that are latitude BANDS of a fine tropical grid (an item may then hold latitudes of a few degrees only)
+    for r in range({"quick": 1, "thorough": 6, "search": 3}[tier]):
+        for cls in ("EOF", "ComplexEOF", "EOFRotator", "SparsePCA", "HilbertEOF"):
+            out.append({"cls": cls, "rel": "split_list_lat", "mseed": int(rng.integers(0, 2**31)), "k": 2, "standardize": bool(r % 2), "use_coslat": True,
+                        "sname": "S", "fname": "F", "use_pca": False})
     # the bootstrapper is built on top of EOF
     for r in range(reps):
         out.append({"cls": "EOFBootstrapper", "rel": "names", "mseed": int(rng.integers(0, 2**31)), "k": 2, "standardize": False, "use_coslat": False,
@@ -71,6 +76,8 @@ def relayout(A, rel, rng, second=False):
         if rel == "split_list_revorder":
             b = b.transpose("lon", "lat", "time")
         return [a, b]
+    if rel == "split_list_lat":
+        return [A.isel(lat=[0]), A.isel(lat=slice(1, None))]
     if rel == "sample_perm":
         return A.isel(time=rng.permutation(A.sizes["time"]))
     if rel == "two_sdims_transpose":
@@ -182,6 +189,9 @@ def run(case):
     X = field(rng, n, ny, nx, cplx, off=2.0)
     Y = field(rng, n, ny, 3, cplx, off=-1.0) + 0.5 * X.isel(lon=slice(0, 3)).values
     two = zoo.takes_two(zc)
+    if rel == "split_list_lat":
+        X = X.assign_coords(lat=[-2.5, 0.5, 1.25])
+        Y = Y.assign_coords(lat=[-2.5, 0.5, 1.25])
     cc = f"{cls}|{rel}"
     cfgA = cfg_for(case, names=False)
     cfgB = cfg_for(case, names=(rel == "names"))
